@@ -223,6 +223,8 @@ history_prop!(
         prop_oneof![
             3 => prop::collection::vec(op_strategy(60, 2, 1, 1, 0), 100..420),
             1 => prop::collection::vec(op_strategy(30, 6, 2, 3, 0), 40..300),
+            // games of 500..900 plies before the unwinding starts
+            1 => prop::collection::vec(op_strategy(14, 5, 2, 0, 0), 520..900),
         ]
     )
         .prop_map(|(fen, ops)| History { fen, ops })
@@ -230,6 +232,27 @@ history_prop!(
     1_000,
     25_000,
     |it: &Interp| it.max_depth >= 100 && it.max_quiet_stretch >= 50
+);
+
+history_prop!(
+    C03LongGames,
+    "C03/long-games",
+    Which {
+        successor: true,
+        ..Which::default()
+    },
+    (
+        prop_oneof![2 => gen::seed_fen(), 1 => gen::pawn_placement().prop_map(|r| gen::build(&r).fen())],
+        prop_oneof![
+            2 => prop::collection::vec(op_strategy(20, 6, 4, 0, 0), 260..420),
+            1 => prop::collection::vec(op_strategy(14, 5, 2, 0, 0), 520..900),
+        ]
+    )
+        .prop_map(|(fen, ops)| History { fen, ops })
+        .boxed(),
+    400,
+    10_000,
+    |it: &Interp| it.max_depth >= 256
 );
 
 // ------------------------------------------------------------------------------ C05 (history part)
@@ -294,7 +317,10 @@ history_prop!(
             2 => gen::pawn_placement().prop_map(|r| gen::build(&r).fen()),
             1 => gen::endgame(4).prop_map(|r| gen::build(&r).fen()),
         ],
-        prop::collection::vec(op_strategy(20, 6, 4, 1, 0), 140..400),
+        prop_oneof![
+            3 => prop::collection::vec(op_strategy(20, 6, 4, 1, 0), 140..400),
+            1 => prop::collection::vec(op_strategy(14, 5, 2, 0, 0), 520..900),
+        ],
     )
         .prop_map(|(fen, ops)| History { fen, ops })
         .boxed(),
@@ -415,6 +441,8 @@ history_prop!(
         prop_oneof![
             // long mostly-quiet games
             3 => prop::collection::vec(op_strategy(60, 2, 1, 1, 0), 100..420),
+            // very long games (more than 512 plies before the unwinding starts)
+            1 => prop::collection::vec(op_strategy(14, 5, 2, 0, 0), 520..900),
             // stretches interrupted by pawn moves and captures
             2 => prop::collection::vec(op_strategy(30, 6, 2, 2, 0), 40..300),
             1 => prop::collection::vec(op_strategy(4, 4, 4, 3, 0), 1..120),
